@@ -1143,8 +1143,8 @@ pub fn run(ctx: &mut Ctx) -> Report {
         return rep;
     }
     // every run costs >= ~1.2 s (the tail of finalize) whatever its size, ~1.6 s on the loaded machine:
-    // 48 runs (every (threads, mode) pair once) ~ 80 s, 480 ~ 13 min
-    let n = ctx.t(48, 480);
+    // 48 runs (every (threads, mode) pair once) ~ 80 s, 240 ~ 7 min (several times that on a busy machine)
+    let n = ctx.t(48, 240);
     let t0 = Instant::now();
     for i in 0..n {
         let case = gen_case(ctx.seed, i, false);
@@ -1157,7 +1157,7 @@ pub fn run(ctx: &mut Ctx) -> Report {
         }
     }
     // last: the sub-cases that may leak a blocked producer (stop at the first one that does)
-    for i in 0..ctx.t(4, 24) {
+    for i in 0..ctx.t(4, 12) {
         let case = gen_case(ctx.seed, i, true);
         if !run_oversize(ctx, &mut rep, &case) {
             break;
